@@ -134,7 +134,8 @@ func serializeAttrs(pc *PrintCtx, kvps Attrs) (err error) { //nolint:revive
 	prefix := pc.prefix
 
 	if pc.dedupeAttrs {
-		slices.SortFunc(kvps, func(a, b Attr) int {
+		// must be stable: among equal keys the last one given wins in dedupeSlice
+		slices.SortStableFunc(kvps, func(a, b Attr) int {
 			if a == nil {
 				if b == nil {
 					return 0
